@@ -132,6 +132,14 @@ class RefMap:
             return f"{vt(old)}>v{int(p[2])}"
         if o == "entkey":
             return f"{'vac' if self.get(p[1]) is None else 'occ'}:{p[1]}"
+        if o == "goi":
+            # InlineTable::get_or_insert (no other map-like type has it): the ordered map's or_insert -- a value is
+            # returned untouched, an absent key is appended, a reserved position receives the value
+            if self.c != "inline":
+                return "na"
+            if self.get(p[1]) is None:
+                self.put(p[1], int(p[2]))
+            return vt(self.get(p[1]))
         if o == "idx":
             v = self.get(p[1])
             return "panic" if v is None else vt(v)
@@ -355,7 +363,7 @@ def oracle(case, out):
         p = o.split(" ")
         # an Entry API call on a key whose position is a reservation (`Item::None`) is the corner of the known
         # findings; the same call deviating on any other key is a class of its own (`<op>/plain`)
-        plain = (p[0] in ENTRY_API and isinstance(ref, RefMap)
+        plain = (p[0] in ENTRY_API + ("goi",) and isinstance(ref, RefMap)
                  and not (ref.pos(p[1]) is not None and ref.get(p[1]) is None))
         want = ref.op(p)
         if got != want:
@@ -380,6 +388,8 @@ def cause_of(container, where):
         return "impl TableLike for InlineTable: iter/iter_mut/get/get_mut show Item::None placeholders"
     if container in ("table", "tablelike") and where in ("ins", "insf", "rem", "reme"):
         return "Table::insert/insert_formatted/remove/remove_entry return Some(Item::None) for a placeholder"
+    if container == "inline" and where == "goi":
+        return "InlineTable::get_or_insert panics on (or mishandles) an Item::None placeholder"
     if container == "inline" and where in ENTRY_API:
         return "InlineTable::entry turns a placeholder into the value {}"
     if where in ENTRY_OR_INSERT:
@@ -403,7 +413,7 @@ W_TABLE = [("ins", 10), ("insf", 4), ("rem", 7), ("reme", 3), ("get", 4), ("getm
            ("extend", 2), ("entrem", 5), ("entins", 5), ("entget", 2), ("entmut", 3), ("entwith", 2), ("entkey", 2)]
 LIKE_OPS = {"ins", "rem", "get", "getmut", "gkv", "has", "len", "empty", "iter", "keys", "clear", "entry", "entocc",
             "idx", "idxmut", "idxset", "sort", "entrem", "entins", "entget", "entmut", "entwith", "entkey"}
-W_INLINE = [(o, w) for o, w in W_TABLE if o not in ("hasv", "hast")]
+W_INLINE = [(o, w) for o, w in W_TABLE if o not in ("hasv", "hast")] + [("goi", 6)]
 W_LIKE = [(o, w) for o, w in W_TABLE if o in LIKE_OPS]
 W_ARRAY = [("push", 8), ("ins", 6), ("repl", 5), ("rem", 6), ("get", 4), ("getmut", 1), ("len", 3), ("empty", 2),
            ("iter", 3), ("clear", 1), ("retain", 2), ("sortby", 2), ("extend", 3)]
@@ -446,7 +456,7 @@ def gen_history(rng, container, n, placeholders=True):
             else:
                 s = o
             vec.op(s.split(" "))
-        elif o in ("ins", "insf", "entry", "idxset", "entins", "entmut", "entwith"):
+        elif o in ("ins", "insf", "entry", "idxset", "entins", "entmut", "entwith", "goi"):
             s = f"{o} {key()} {val()}"
         elif o in ("rem", "reme", "get", "getmut", "gkv", "has", "hasv", "hast", "entocc", "idx", "idxmut", "entrem",
                    "entget", "entkey"):
@@ -512,6 +522,17 @@ REGRESSIONS = [
     "tablelike idxmut a;entrem a", "inlinelike idxmut a;entmut a 1", "docinline entget a", "docinline entrem a;ins a 1",
     "inline idxmut a;entrem a", "inline idxmut a;entins a 1", "inline idxmut a;entget a", "inline idxmut a;entmut a 1",
     "inline idxmut a;entwith a 1", "inline idxmut a;entkey a",
+    # InlineTable::get_or_insert: on a placeholder left by `item["a"]` it used to panic ("non-value type in inline
+    # table"); now the value lands on the reserved position.  A present value is returned untouched, an absent key is
+    # appended.  Every other container answers `na` (no such method).
+    "inline idxmut a;goi a 1",
+    "inline idxmut a;goi a 1;get a;len;iter",
+    "inline ins b 0;idxmut a;ins c 2;goi a 5;iter;keys",
+    "inline ins a 0;ins b 1;goi a 5;goi c 7;goi b 6;iter",
+    "inline idxmut a;goi a 1;goi a 2;rem a;goi a 3;idxmut b;rem b;goi b 4",
+    "inline goi a 1;goi a 2;entrem a;goi a 3;retain;goi a 4",
+    "table goi a 1", "tablelike goi a 1", "inlinelike idxmut a;goi a 1", "docinline goi a 1;iter",
+    "array goi 0 1", "aot goi 0 1", "mapsorted goi a 1", "mapinsertion goi a 1",
 ]
 
 
@@ -534,6 +555,46 @@ def entry_systematic():
                 for k2 in KEYS:
                     for o2 in calls(k2)[:6]:
                         out.append(f"{c} {fill};{o1};{o2};iter")
+    return out
+
+
+def goi_systematic():
+    """InlineTable::get_or_insert: every history of 1-3 calls over two keys that contains a get_or_insert (the alphabet
+    has mutable indexing, insert, remove, or_insert, lookup and indexed assignment, so every state of a key -- absent,
+    reserved, present -- meets it), then iter/len; the call on every key of the filled maps of entry_systematic
+    (next to and on a placeholder); and in both orders with every Entry API call on a 4-entry map"""
+    alpha = []
+    for k in "ab":
+        alpha += [f"idxmut {k}", f"ins {k} 0", f"rem {k}", f"goi {k} 1", f"goi {k} 2", f"entry {k} 3", f"get {k}",
+                  f"idxset {k} 4"]
+    out = []
+    for n in (1, 2, 3):
+        idx = [0] * n
+        while True:
+            h = [alpha[i] for i in idx]
+            if any(o.startswith("goi") for o in h):
+                out.append("inline " + ";".join(h) + ";iter;len")
+            j = n - 1
+            while j >= 0 and idx[j] == len(alpha) - 1:
+                idx[j] = 0
+                j -= 1
+            if j < 0:
+                break
+            idx[j] += 1
+    fills = ["ins a 0;ins b 1;ins c 2", "ins a 0;ins b 1;ins c 2;ins d 3", "ins d 3;ins a 0;idxmut c;ins b 1",
+             "idxmut b;ins a 0;ins c 2;ins d 3"]
+    for fill in fills:
+        for k in KEYS:
+            out.append(f"inline {fill};goi {k} 5;iter;keys;len")
+            for c in ("table", "tablelike", "inlinelike"):
+                out.append(f"{c} {fill};goi {k} 5;iter")
+    ent = lambda k: [f"entrem {k}", f"entins {k} 7", f"entget {k}", f"entmut {k} 8", f"entwith {k} 9", f"entkey {k}"]
+    for fill in (fills[1], fills[2]):
+        for k1 in KEYS:
+            for k2 in KEYS:
+                for o in ent(k2):
+                    out.append(f"inline {fill};goi {k1} 5;{o};iter")
+                    out.append(f"inline {fill};{o};goi {k1} 5;iter")
     return out
 
 
@@ -604,7 +665,8 @@ def gen_wide(rng, container):
         elif r < 0.86:
             do(f"entry {k} {val()}")
         elif r < 0.93 and maplike:
-            do(f"{rng.choice(['entins', 'entins', 'entwith'])} {k} {val()}")      # vacant insert appends
+            # vacant insert appends (on an InlineTable also through get_or_insert)
+            do(f"{rng.choice(['entins', 'entins', 'entwith'] + ['goi', 'goi'] * (container == 'inline'))} {k} {val()}")
         elif maplike:
             do(f"idxset {k} {val()}")
         else:
@@ -617,7 +679,7 @@ def gen_wide(rng, container):
     else:
         pool = ["sortby"] * 4 + ["sort", "retain", "rem", "rem", "reme", "ins", "insf", "iter", "keys", "entry",
                                  "idxmut", "extend", "len", "entrem", "entrem", "entrem", "entins", "entmut", "entget",
-                                 "entwith", "entkey"]
+                                 "entwith", "entkey"] + ["goi", "goi"] * (container == "inline")
     present = lambda: [k for k in WIDE_KEYS if ref.get(k) is not None] if maplike else list(ref.d.keys())
     for _ in range(rng.randrange(3, 12)):
         o = rng.choice(pool)
@@ -625,7 +687,7 @@ def gen_wide(rng, container):
         anyk = rng.choice(have) if have and rng.random() < 0.8 else rng.choice(WIDE_KEYS)
         if o in ("rem", "reme", "idxmut", "entrem", "entget", "entkey"):
             do(f"{o} {anyk}")
-        elif o in ("ins", "insf", "entry", "entins", "entmut", "entwith"):
+        elif o in ("ins", "insf", "entry", "entins", "entmut", "entwith", "goi"):
             do(f"{o} {anyk} {val()}")
         elif o == "extend":
             do("extend " + " ".join(f"{rng.choice(have) if have and rng.random() < 0.5 else rng.choice(WIDE_KEYS)} {val()}" for _ in range(rng.randrange(1, 4))))
@@ -657,7 +719,7 @@ def gen(ctx):
     share = {"table": 5, "tablelike": 2, "inline": 4, "inlinelike": 2, "docinline": 1, "array": 3, "aot": 1,
              "mapsorted": 2, "mapinsertion": 2}
     tot = sum(share.values())
-    cases = list(REGRESSIONS) + wide_regressions() + entry_systematic()
+    cases = list(REGRESSIONS) + wide_regressions() + entry_systematic() + goi_systematic()
     for c, s in share.items():
         for i in range(total * s // tot):
             n = rng.randrange(1, 31) if (quick or rng.random() < 0.8) else rng.randrange(31, maxlen + 1)
@@ -762,6 +824,21 @@ def run(ctx):
             ref.op(p)
         if hit:
             wide[container] = wide.get(container, 0) + 1
+    # InlineTable::get_or_insert: in which state of its key the call was made
+    goi_on_ph = 0
+    goi_states = {"absent": 0, "reserved (placeholder)": 0, "present": 0}
+    for c in cases:
+        container, ops = split_case(c)
+        if container != "inline" or "goi " not in c:
+            continue
+        ref = reference(container)
+        for o in ops:
+            p = o.split(" ")
+            if p[0] == "goi":
+                st = "absent" if ref.pos(p[1]) is None else ("present" if ref.get(p[1]) is not None else "reserved (placeholder)")
+                goi_states[st] += 1
+            ref.op(p)
+    goi_on_ph = goi_states["reserved (placeholder)"]
     # one violation per root cause: classes that one code change would repair are reported together,
     # with a fixed regression history as witness when one of them fails (stable across seeds)
     causes = {}
@@ -805,10 +882,14 @@ def run(ctx):
             ctx.violation(f"obligation no longer checks: {n}", {"unchecked": n, "detail": d[:1500], "searched": f"{len(cases)} histories against the reference ordered map / vector"}, concrete=False)
     ctx.cov.update({
         "evaluations": len(cases), "distinct_nontrivial": len(nontriv),
-        "rule": "random histories of API calls (length 1-30, thorough up to 200) over keys a-d (2-4 of them in use, `a` twice as likely) and values 0-9, per container: Table, Table through dyn TableLike, InlineTable, InlineTable through dyn TableLike, the inline table doc[\"t\"][\"a\"] creates, Array, ArrayOfTables, toml::Map sorted (default build) and insertion-ordered (preserve_order build); a third of the map-like histories never index mutably; vector indexes 90% in range; plus fixed regression histories; plus the systematic Entry API family (every one of entrem/entins/entget/entmut/entwith/entkey/entry/entocc on every key of a 3- and a 4-entry map and next to a placeholder, and every ordered pair of the six new calls on a 4-entry map, then iter, for Table, InlineTable and both through dyn TableLike); plus the wide stream (see wide_rule). non-trivial = at least 3 calls with at least one key/index argument",
+        "rule": "random histories of API calls (length 1-30, thorough up to 200) over keys a-d (2-4 of them in use, `a` twice as likely) and values 0-9, per container: Table, Table through dyn TableLike, InlineTable, InlineTable through dyn TableLike, the inline table doc[\"t\"][\"a\"] creates, Array, ArrayOfTables, toml::Map sorted (default build) and insertion-ordered (preserve_order build); a third of the map-like histories never index mutably; vector indexes 90% in range; plus fixed regression histories; plus the systematic Entry API family (every one of entrem/entins/entget/entmut/entwith/entkey/entry/entocc on every key of a 3- and a 4-entry map and next to a placeholder, and every ordered pair of the six new calls on a 4-entry map, then iter, for Table, InlineTable and both through dyn TableLike); plus the systematic InlineTable::get_or_insert family (op `goi`: every history of 1-3 calls over keys a, b from idxmut/ins/rem/goi/entry/get/idxset that contains a goi, then iter;len; goi on every key of the filled maps incl. on and next to a placeholder; goi before and after every Entry API call on a 4-entry map; `na` on every container without the method); plus the wide stream (see wide_rule). non-trivial = at least 3 calls with at least one key/index argument",
         "samples": [cases[0], cases[len(all_regs) + 1], cases[len(all_regs) + len(entry_systematic()) + 1],
+                    cases[len(all_regs) + len(entry_systematic()) + len(goi_systematic()) + 1],
                     cases[len(cases) // 2], cases[-1]],
         "entry_api_systematic_histories": len(entry_systematic()),
+        "get_or_insert_systematic_histories": len(goi_systematic()),
+        "get_or_insert_calls_on_a_placeholder": goi_on_ph,
+        "get_or_insert_calls_per_key_state": goi_states,
         "histories_per_container": hist_cont, "calls_per_operation": dict(sorted(hist_ops.items())),
         "history_length_histogram": {str(k): v for k, v in sorted(lens.items())},
         "histories_with_placeholders": with_placeholder,
